@@ -315,7 +315,7 @@ def run_history(task):
                 res["outcome"] = "violation"
                 res["cex"] = {"what": "; ".join(pr.value[:3]), "state": _model(ctx, prep)}
 
-        explore(fn, on_path, stats=stats, max_paths=task.get("max_paths", 600), timeout_ms=5000)
+        explore(fn, on_path, stats=stats, max_paths=task.get("max_paths", 600), timeout_ms=5000, time_budget_s=core.task_budget())
     except Inconclusive as e:
         res["outcome"], res["detail"] = "inconclusive", str(e)
     except PathLimit as e:
